@@ -335,6 +335,14 @@ def main(argv=None):
         except Exception:
             again = [{"signature": "REPLAY-CRASH", "what": traceback.format_exc()[-800:]}]
         sigs = {a["signature"] for a in again}
+        if v["signature"] not in sigs and isinstance(v["scenario"], dict) and v["scenario"].get("only") is not None:
+            # the scenario pins one case of a work item; if the verdict depends on what the same objects were
+            # asked before (state kept by the library between calls), the whole item reproduces it
+            try:
+                again = prop.replay({k: x for k, x in v["scenario"].items() if k != "only"})
+            except Exception:
+                again = [{"signature": "REPLAY-CRASH", "what": traceback.format_exc()[-800:]}]
+            sigs = {a["signature"] for a in again}
         if v["signature"] in sigs:
             confirmed.append(v)
             seen_sig.add(v["signature"])
@@ -358,7 +366,8 @@ def main(argv=None):
             % (pid, v["signature"], sigs),
             file=sys.stderr,
         )
-        exit_code = max(exit_code, 3)
+        if exit_code == 0:  # a confirmed violation stays exit 1; only a run with nothing confirmed becomes 3
+            exit_code = 3
 
     wall = time.time() - t0
     n_states = len(total.states) + total.states_overflow
